@@ -659,3 +659,111 @@ Proof. intros H E. rewrite upper_eval by exact H. cbn [str_upper]. rewrite E. re
 Lemma lower_ascii_total s : not_code s -> non_ascii s = false ->
   X_lower [VStr s] = Ok (VStr (map ascii_lower s)).
 Proof. intros H E. rewrite lower_eval by exact H. cbn [str_lower]. rewrite E. reflexivity. Qed.
+
+(* ------------------------------------------------------------- SUBSTITUTE *)
+(* old is non-empty throughout: old = o :: old' *)
+Lemma prefix_skip_length o old' s : str_prefix (o :: old') s = true ->
+  (length (skipn (length (o :: old')) s) < length s)%nat.
+Proof.
+  intros H. apply str_prefix_length in H. rewrite skipn_length. cbn [length] in *. lia.
+Qed.
+
+Lemma replace_ne_fuel o old' new : forall f1 f2 cnt s,
+  (length s < f1)%nat -> (length s < f2)%nat ->
+  replace_ne f1 (o :: old') new cnt s = replace_ne f2 (o :: old') new cnt s.
+Proof.
+  induction f1 as [|f1 IH]; intros f2 cnt s H1 H2; [lia|].
+  destruct f2 as [|f2]; [lia|]. cbn [replace_ne].
+  destruct (cnt_dec cnt) as [cnt'|]; [|reflexivity].
+  destruct (str_prefix (o :: old') s) eqn:E.
+  - f_equal. pose proof (prefix_skip_length _ _ _ E). apply IH; lia.
+  - destruct s as [|x s]; [reflexivity|]. f_equal. cbn [length] in *. apply IH; lia.
+Qed.
+
+Lemma replace_ne_S f old new cnt s :
+  replace_ne (S f) old new cnt s
+  = match cnt_dec cnt with
+    | None => s
+    | Some cnt' =>
+        if str_prefix old s then new ++ replace_ne f old new cnt' (skipn (length old) s)
+        else match s with [] => [] | x :: s' => x :: replace_ne f old new cnt s' end
+    end.
+Proof. reflexivity. Qed.
+
+(* Python's s.replace(old, new[, count]) for a non-empty old *)
+Definition repl (old new : str) (cnt : option nat) (s : str) : str :=
+  str_replace_cnt s old new cnt.
+
+Lemma repl_stop o old' new cnt s : cnt_dec cnt = None -> repl (o :: old') new cnt s = s.
+Proof. intros H. unfold repl, str_replace_cnt. cbn [replace_ne]. rewrite H. reflexivity. Qed.
+
+Lemma repl_hit o old' new cnt cnt' s : cnt_dec cnt = Some cnt' ->
+  str_prefix (o :: old') s = true ->
+  repl (o :: old') new cnt s = new ++ repl (o :: old') new cnt' (skipn (length (o :: old')) s).
+Proof.
+  intros H E. unfold repl, str_replace_cnt.
+  rewrite (replace_ne_S (length s) (o :: old') new cnt s), H, E. f_equal.
+  pose proof (prefix_skip_length _ _ _ E). apply replace_ne_fuel; lia.
+Qed.
+
+Lemma repl_miss o old' new cnt cnt' x s : cnt_dec cnt = Some cnt' ->
+  str_prefix (o :: old') (x :: s) = false ->
+  repl (o :: old') new cnt (x :: s) = x :: repl (o :: old') new cnt s.
+Proof.
+  intros H E. unfold repl, str_replace_cnt.
+  rewrite (replace_ne_S (length (x :: s)) (o :: old') new cnt (x :: s)), H, E. reflexivity.
+Qed.
+
+Lemma repl_nil o old' new cnt : repl (o :: old') new cnt [] = [].
+Proof.
+  unfold repl, str_replace_cnt. rewrite replace_ne_S. destruct (cnt_dec cnt); reflexivity.
+Qed.
+
+(* old does not occur in s at any position *)
+Definition no_occurrence (old s : str) : Prop :=
+  forall q, str_prefix old (skipn q s) = false.
+(* the first occurrence of old in s starts right after a *)
+Definition first_after (old a s : str) : Prop :=
+  exists rest, s = a ++ old ++ rest
+    /\ forall q, (q < length a)%nat -> str_prefix old (skipn q s) = false.
+
+Lemma repl_no_occurrence o old' new cnt s :
+  no_occurrence (o :: old') s -> repl (o :: old') new cnt s = s.
+Proof.
+  induction s as [|x s IH]; intros H; [apply repl_nil|].
+  destruct (cnt_dec cnt) as [cnt'|] eqn:Ec; [|apply repl_stop; exact Ec].
+  rewrite (repl_miss _ _ _ _ _ _ _ Ec (H 0%nat)). f_equal. apply IH.
+  intros q. exact (H (S q)).
+Qed.
+
+Lemma prefix_app old rest : str_prefix old (old ++ rest) = true.
+Proof. apply str_prefix_iff. rewrite firstn_app, Nat.sub_diag, firstn_all. cbn. apply app_nil_r. Qed.
+
+Lemma repl_first o old' new cnt cnt' a rest : cnt_dec cnt = Some cnt' ->
+  (forall q, (q < length a)%nat -> str_prefix (o :: old') (skipn q (a ++ (o :: old') ++ rest)) = false) ->
+  repl (o :: old') new cnt (a ++ (o :: old') ++ rest)
+  = a ++ new ++ repl (o :: old') new cnt' rest.
+Proof.
+  intros Ec. induction a as [|x a IH]; intros H.
+  - cbn [app]. rewrite (repl_hit _ _ _ _ _ _ Ec (prefix_app (o :: old') rest)).
+    rewrite skipn_app, skipn_all, Nat.sub_diag. reflexivity.
+  - cbn [app]. rewrite (repl_miss _ _ _ _ _ _ _ Ec (H 0%nat ltac:(cbn; lia))). f_equal.
+    apply IH. intros q Hq. apply (H (S q)). cbn [length]. lia.
+Qed.
+
+Lemma substitute_all_eval t old new : not_code t -> not_code old -> not_code new ->
+  X_substitute [VStr t; VStr old; VStr new] = Ok (VStr (repl old new None t)).
+Proof. intros H1 H2 H3. unfold X_substitute. wrap_run. reflexivity. Qed.
+
+(* SUBSTITUTE(t, old, new): every non-overlapping occurrence, left to right *)
+Lemma substitute_all t o old' new : not_code t -> not_code (o :: old') -> not_code new ->
+  exists r, X_substitute [VStr t; VStr (o :: old'); VStr new] = Ok (VStr r)
+  /\ (no_occurrence (o :: old') t -> r = t)
+  /\ (forall a rest, t = a ++ (o :: old') ++ rest ->
+        (forall q, (q < length a)%nat -> str_prefix (o :: old') (skipn q t) = false) ->
+        r = a ++ new ++ repl (o :: old') new None rest).
+Proof.
+  intros H1 H2 H3. eexists. split; [apply substitute_all_eval; assumption|]. split.
+  - apply repl_no_occurrence.
+  - intros a rest -> Hq. apply repl_first; [reflexivity|exact Hq].
+Qed.
